@@ -131,9 +131,11 @@ def add_step(pp, subs, world, handles, recipe, act):
         raise env.InternalError(f"no recipe form for {op}")
 
 
-def bake(pp, vidx, program, layout=None):
+def bake(pp, vidx, program, layout=None, premature=False):
     """Bake `program` in a fresh recipe that declares exactly the outside objects the program mentions.
     layout: list of (stage name, first step, one-past-last step or None = left open at bake).
+    premature: bake() is also called after every step that leaves a declared object unused; that call must be refused
+    and must not disturb anything (also done by layouts with refused stage calls).
     Returns dict(ok, exc, results, recipe, handles, world (the originals), pre_violation)."""
     env.clear_caches(pp)
     subs, world = pristine(pp, vidx)
@@ -146,15 +148,29 @@ def bake(pp, vidx, program, layout=None):
             recipe.uses(world[n])
         fp0 = e1.exact_world(world)
         starts = {s: n for n, s, e in (layout or [])}
-        ends = {e: n for n, s, e in (layout or []) if e is not None}
         out['phase'] = 'add'
         refused = any(n.endswith('!') for n, _, _ in (layout or []))
+
+        def stage_calls(i):
+            # in layout order: stages ending here, then stages starting here (an empty stage starts and ends at once)
+            for n, s, e in (layout or []):
+                if e == i and s < i:
+                    recipe.end_stage(n)
+            for n, s, e in (layout or []):
+                if s == i:
+                    recipe.start_stage(n)
+                    if e == i:
+                        recipe.end_stage(n)
         for i, act in enumerate(program):
-            if i in ends:
-                recipe.end_stage(ends[i])
-            if i in starts:
-                recipe.start_stage(starts[i])
+            stage_calls(i)
             add_step(pp, subs, world, handles, recipe, act)
+            if (refused or premature) and i + 1 < len(program) and \
+                    set(outside_mentioned(program)) - set(outside_mentioned(program[:i + 1])):
+                try:
+                    recipe.bake()
+                    out['premature'] = f"bake() after step {i + 1} was accepted although a declared object was unused"
+                except ValueError:
+                    pass
             if refused:
                 # stage calls that must be refused, in the middle of the program: they must not disturb anything
                 for call, arg in ((recipe.start_stage, starts.get(0, 'zz')), (recipe.end_stage, 'never-started'),
@@ -164,8 +180,7 @@ def bake(pp, vidx, program, layout=None):
                         raise env.InternalError(f"stage call {call.__name__}({arg!r}) was expected to be refused")
                     except ValueError:
                         pass
-        if len(program) in ends:
-            recipe.end_stage(ends[len(program)])
+        stage_calls(len(program))
         # steps have no effect before bake: originals unchanged, placeholders empty
         if e1.exact_world(world) != fp0:
             out['pre'] = 'adding steps modified a declared object before bake'
@@ -243,6 +258,10 @@ def layouts(n):
         for j in range(i + 1, n + 1):
             if (i, j) != (0, n) or n == 1:
                 out.append((f'one-stage-{i}-{j}', [('r', i, j)]))
+    if n >= 1:
+        # stages that contain no step: before the first step, between two stages, after the last step
+        out.append(('empty-stages', [('e0', 0, 0), ('a', 0, max(1, n - 1))] + ([('e1', n - 1, n - 1), ('b', n - 1, n)] if n >= 2 else [])
+                    + [('e2', n, n)]))
     if n >= 2:
         out.append(('whole-open', [('w', 0, None)]))
         # the same two stages with refused stage calls after every step (names ending in '!' switch them on)
